@@ -314,6 +314,8 @@ class AbsExec:
         if isinstance(e, ast.UnaryOp):
             v = self.eval(e.operand, env)
             if isinstance(e.op, ast.Not):
+                if _is_unknown(v):
+                    return v  # the negation of an undetermined truth value is undetermined (asserts tolerate it, branches do not)
                 return not self.truth(v, e)
             if isinstance(v, Tok):
                 return Tok(f"(-{v.text})")
